@@ -144,7 +144,8 @@ func (s *c12Server) runItem(item int, upTo int) {
 	rec.Mark(c12Case{Side: "server", Seed: s.seed, Thorough: s.thorough, Item: item, Index: -1, Domain: domain, Qtype: qt})
 	fx, err := c12NewFx(domain, qt, s.seed*4096+int64(item))
 	if err != nil {
-		rec.Violation("server:fixture:session-setup-failed", c12Case{Side: "server", Seed: s.seed, Thorough: s.thorough, Item: item, Index: -1, Domain: domain, Qtype: qt}, err.Error())
+		// a handshake over a transparent path that fails is some other property's subject; here nothing was observed
+		rec.Inconclusive("fixture: the victim/hostile sessions could not be established: "+err.Error(), c12Case{Side: "server", Seed: s.seed, Thorough: s.thorough, Item: item, Index: -1, Domain: domain, Qtype: qt})
 		return
 	}
 	defer fx.close()
